@@ -421,7 +421,7 @@ def format_ref_spec(kind, what, k, is_target, constrain):
 
 
 NAME = Built([], lambda env: "PARENT", lambda a: "'PARENT'", lambda a: None)
-con = contract("cohdl._compiler.backend.vhdl._vhdl_repr:VhdlScope._format_ref", PROPS + ("C13",))
+con = contract("cohdl._compiler.backend.vhdl._vhdl_repr:VhdlScope._format_ref", PROPS + ("C13", "C06"))
 for K in (BitVector, Unsigned, Signed):
     for k in (0, 1, 2):
         for is_target, constrain in ((False, False), (False, True), (True, False)):
